@@ -220,4 +220,616 @@ theorem loadInner_prefix (p : Param) (wsS wsL : Bool) (dev : Dev) (pre q : Bytes
     refine seq_prefix lawful_nat32 hn h1 hq _ (fun c2 h2 => ?_)
     rw [readStats_prefix wsL p.stats c2 q [] hst h2 hq]; rfl
 
+/-! ### Parameter::save / load -/
+
+theorem Param.save_eq {p : Param} {ws : Bool} {file : Bytes} (h : Param.save (some p) ws = some file) :
+    file = (headerC .parameter).enc () ++ saveInner p ws := by
+  simp only [Param.save] at h
+  split at h
+  · simpa [headerC] using h.symm
+  · cases h
+
+theorem Param.parse_save (p : Param) (wsS wsL : Bool) (dev : Dev) (file trailing : Bytes)
+    (hp : ParamOk p) (hs : Param.save (some p) wsS = some file) :
+    Param.parse (file ++ trailing) wsL dev = .ok (loaded p (wsS && wsL) dev) trailing := by
+  rw [Param.save_eq hs]
+  simp only [Param.parse, List.append_assoc]
+  rw [show readHeader .parameter = (headerC .parameter).dec from rfl,
+    (lawful_headerC .parameter).roundtrip () _ trivial]
+  simp only [Res.bind_ok]
+  exact loadInner_saveInner p wsS wsL dev trailing hp
+
+theorem Param.parse_truncated (p : Param) (wsS wsL : Bool) (dev : Dev) (file pre q : Bytes)
+    (hp : ParamOk p) (hs : Param.save (some p) wsS = some file) (he : pre ++ q = file) (hq : q ≠ []) :
+    Param.parse pre wsL dev = .error .eof := by
+  rw [Param.save_eq hs] at he
+  simp only [Param.parse]
+  rw [show readHeader .parameter = (headerC .parameter).dec from rfl]
+  exact seq_prefix (lawful_headerC .parameter) (v := ()) trivial he hq _
+      (fun c hc => loadInner_prefix p wsS wsL dev c q hp hc hq)
+
+theorem Param.load_save (old : PState) (p : Param) (wsS wsL : Bool) (dev : Dev) (file trailing : Bytes)
+    (hp : ParamOk p) (hs : Param.save (some p) wsS = some file) :
+    Param.load old (file ++ trailing) wsL dev = (none, some (loaded p (wsS && wsL) dev)) := by
+  rw [Param.load, Param.parse_save p wsS wsL dev file trailing hp hs]; rfl
+
+theorem Param.load_truncated (old : PState) (p : Param) (wsS wsL : Bool) (dev : Dev) (file pre q : Bytes)
+    (hp : ParamOk p) (hs : Param.save (some p) wsS = some file) (he : pre ++ q = file) (hq : q ≠ []) :
+    Param.load old pre wsL dev = (some .eof, old) := by
+  rw [Param.load, Param.parse_truncated p wsS wsL dev file pre q hp hs he hq]; rfl
+
+/-- whatever the bytes: a failing `Parameter::load` leaves the object exactly as it was -/
+theorem Param.load_atomic (old : PState) (file : Bytes) (ws : Bool) (dev : Dev) (e : DErr) (st : PState)
+    (h : Param.load old file ws dev = (some e, st)) : st = old := by
+  rw [Param.load] at h
+  cases hp : Param.parse file ws dev with
+  | ok p r => rw [hp] at h; cases h
+  | error e' => rw [hp] at h; exact (Prod.mk.inj h).2.symm
+
+theorem Param.load_bad_header (old : PState) (major minor tag : Nat) (rest : Bytes) (ws : Bool) (dev : Dev)
+    (hM : major < 4294967296) (hm : minor < 4294967296) (ht : tag < 4294967296)
+    (hbad : major ≠ versionMajor ∨ minor ≠ versionMinor ∨ tag ≠ DataType.parameter.tag) :
+    Param.load old (nat32.enc major ++ nat32.enc minor ++ nat32.enc tag ++ rest) ws dev = (some .invalid, old) := by
+  rw [Param.load, Param.parse, readHeader_bad .parameter major minor tag rest hM hm ht hbad]; rfl
+
+/-! ### Model::save / load -/
+
+def PathOk (k : Path) : Prop := k.length < 4294967296 ∧ ∀ n ∈ k, n.length < 4294967296
+
+theorem lawful_pathC : Lawful pathC PathOk := lawful_arr lawful_str
+
+def EntryOk (e : Path × Param) : Prop := PathOk e.1 ∧ ParamOk e.2
+
+def hasKey (st : MState) (k : Path) : Bool := st.any fun e => e.1 = k
+
+theorem hasKey_setParam (st : MState) (k k' : Path) (p : Param) : hasKey (setParam st k p) k' = hasKey st k' := by
+  induction st with
+  | nil => rfl
+  | cons e st ih =>
+    simp only [hasKey, setParam, List.map_cons, List.any_cons] at ih ⊢
+    rw [ih]; by_cases h : e.1 = k <;> simp [h]
+
+/-- the state after the records `es` have been loaded one after the other -/
+def applyEntries (ws : Bool) (dev : Dev) (es : List (Path × Param)) (st : MState) : MState :=
+  es.foldl (fun s e => setParam s e.1 (loaded e.2 ws dev)) st
+
+theorem hasKey_applyEntries (ws : Bool) (dev : Dev) (es : List (Path × Param)) (st : MState) (k : Path) :
+    hasKey (applyEntries ws dev es st) k = hasKey st k := by
+  induction es generalizing st with
+  | nil => rfl
+  | cons e es ih => simp only [applyEntries, List.foldl_cons] at ih ⊢; rw [ih, hasKey_setParam]
+
+theorem loadEntries_step_ok (wsS wsL : Bool) (dev : Dev) (e : Path × Param) (n : Nat) (rest : Bytes) (st : MState)
+    (he : EntryOk e) (hk : hasKey st e.1 = true) :
+    loadEntries wsL dev (n + 1) (entryBytes wsS e ++ rest) st =
+      loadEntries wsL dev n rest (setParam st e.1 (loaded e.2 (wsS && wsL) dev)) := by
+  simp only [loadEntries, entryBytes, List.append_assoc]
+  rw [lawful_pathC.roundtrip e.1 _ he.1]
+  simp only [hasKey] at hk
+  simp only [hk, Bool.not_true, Bool.false_eq_true, ↓reduceIte]
+  rw [loadInner_saveInner e.2 wsS wsL dev rest he.2]
+
+theorem loadEntries_roundtrip (wsS wsL : Bool) (dev : Dev) :
+    ∀ (es : List (Path × Param)) (rest : Bytes) (st : MState), (∀ e ∈ es, EntryOk e) →
+      (∀ e ∈ es, hasKey st e.1 = true) →
+      loadEntries wsL dev es.length (es.flatMap (entryBytes wsS) ++ rest) st =
+        (none, applyEntries (wsS && wsL) dev es st)
+  | [], rest, st, _, _ => by simp [loadEntries, applyEntries]
+  | e :: es, rest, st, hok, hk => by
+    have he : EntryOk e := hok e (by simp)
+    simp only [List.flatMap_cons, List.length_cons, List.append_assoc]
+    rw [loadEntries_step_ok wsS wsL dev e es.length _ st he (hk e (by simp))]
+    rw [loadEntries_roundtrip wsS wsL dev es rest _ (fun x hx => hok x (by simp [hx]))
+      (fun x hx => by rw [hasKey_setParam]; exact hk x (by simp [hx]))]
+    simp [applyEntries]
+
+/-- a truncated model body: EOF, and exactly the records that precede the cut have been loaded -/
+theorem loadEntries_prefix (wsS wsL : Bool) (dev : Dev) :
+    ∀ (es : List (Path × Param)) (p q : Bytes) (st : MState), (∀ e ∈ es, EntryOk e) →
+      (∀ e ∈ es, hasKey st e.1 = true) → p ++ q = es.flatMap (entryBytes wsS) → q ≠ [] →
+      ∃ j, j < es.length ∧
+        loadEntries wsL dev es.length p st = (some .eof, applyEntries (wsS && wsL) dev (es.take j) st)
+  | [], p, q, st, _, _, he, hq => by simp at he; exact absurd he.2 hq
+  | e :: es, p, q, st, hok, hk, he, hq => by
+    have hE : EntryOk e := hok e (by simp)
+    have hK : hasKey st e.1 = true := hk e (by simp)
+    simp only [List.flatMap_cons] at he
+    rcases prefix_split he hq with ⟨a, ha, hpa⟩ | ⟨c, hpc, hc⟩
+    · -- the cut is inside the first record
+      refine ⟨0, by simp, ?_⟩
+      simp only [List.length_cons, loadEntries, List.take_zero, applyEntries, List.foldl_nil]
+      simp only [entryBytes] at hpa
+      rcases prefix_split hpa ha with ⟨a', ha', hpa'⟩ | ⟨c', hpc', hc'⟩
+      · rw [lawful_pathC.prefixFree e.1 p a' hE.1 hpa' ha']
+      · subst hpc'
+        rw [lawful_pathC.roundtrip e.1 c' hE.1]
+        simp only [hasKey] at hK
+        simp only [hK, Bool.not_true, Bool.false_eq_true, ↓reduceIte]
+        rw [loadInner_prefix e.2 wsS wsL dev c' a hE.2 hc' ha]
+    · subst hpc
+      simp only [List.length_cons]
+      rw [loadEntries_step_ok wsS wsL dev e es.length c st hE hK]
+      obtain ⟨j, hj, hres⟩ := loadEntries_prefix wsS wsL dev es c q _ (fun x hx => hok x (by simp [hx]))
+        (fun x hx => by rw [hasKey_setParam]; exact hk x (by simp [hx])) hc hq
+      exact ⟨j + 1, by omega, by rw [hres]; simp [applyEntries]⟩
+
+theorem setParam_keys (st : MState) (k : Path) (p : Param) : (setParam st k p).map Prod.fst = st.map Prod.fst := by
+  induction st with
+  | nil => rfl
+  | cons e st ih =>
+    simp only [setParam, List.map_cons, List.cons.injEq] at ih ⊢
+    exact ⟨by by_cases h : e.1 = k <;> simp [h], ih⟩
+
+theorem applyEntries_keys (ws : Bool) (dev : Dev) (es : List (Path × Param)) (st : MState) :
+    (applyEntries ws dev es st).map Prod.fst = st.map Prod.fst := by
+  induction es generalizing st with
+  | nil => rfl
+  | cons e es ih => simp only [applyEntries, List.foldl_cons] at ih ⊢; rw [ih, setParam_keys]
+
+theorem mem_setParam_self (st : MState) (k : Path) (p : Param) (h : hasKey st k = true) :
+    (k, some p) ∈ setParam st k p := by
+  simp only [hasKey, List.any_eq_true, decide_eq_true_eq] at h
+  obtain ⟨e, he, hk⟩ := h
+  simp only [setParam, List.mem_map]
+  exact ⟨e, he, by simp [hk]⟩
+
+theorem mem_setParam_other (st : MState) (k : Path) (p : Param) (x : Path × PState) (hx : x ∈ st) (hne : x.1 ≠ k) :
+    x ∈ setParam st k p := by
+  simp only [setParam, List.mem_map]
+  exact ⟨x, hx, by simp [hne]⟩
+
+theorem applyEntries_other (ws : Bool) (dev : Dev) (es : List (Path × Param)) (st : MState) (x : Path × PState)
+    (hx : x ∈ st) (hne : x.1 ∉ es.map Prod.fst) : x ∈ applyEntries ws dev es st := by
+  induction es generalizing st with
+  | nil => exact hx
+  | cons e es ih =>
+    simp only [List.map_cons, List.mem_cons, not_or] at hne
+    simp only [applyEntries, List.foldl_cons] at ih ⊢
+    exact ih _ (mem_setParam_other st e.1 _ x hx hne.1) hne.2
+
+/-- after loading records with distinct names that all exist: every one of them is in place -/
+theorem applyEntries_mem (ws : Bool) (dev : Dev) (es : List (Path × Param)) (st : MState)
+    (hnd : (es.map Prod.fst).Nodup) (hk : ∀ e ∈ es, hasKey st e.1 = true) :
+    ∀ e ∈ es, (e.1, some (loaded e.2 ws dev)) ∈ applyEntries ws dev es st := by
+  induction es generalizing st with
+  | nil => intro e he; cases he
+  | cons e0 es ih =>
+    intro e he
+    simp only [List.map_cons, List.nodup_cons] at hnd
+    have hk0 := hk e0 (by simp)
+    rcases List.mem_cons.mp he with rfl | he'
+    · exact applyEntries_other ws dev es _ _ (mem_setParam_self st _ _ hk0) hnd.1
+    · exact ih (setParam st e0.1 (loaded e0.2 ws dev)) hnd.2
+        (fun x hx => by rw [hasKey_setParam]; exact hk x (by simp [hx])) e he'
+
+theorem allValid_spec : ∀ (l : MState) (es : List (Path × Param)), allValid l = some es →
+    l = es.map fun e => (e.1, some e.2)
+  | [], es, h => by simp [allValid] at h; subst h; rfl
+  | (k, some p) :: r, es, h => by
+    simp only [allValid, Option.map_eq_some_iff] at h
+    obtain ⟨l', hl', rfl⟩ := h
+    simp [allValid_spec r l' hl']
+  | (k, none) :: r, es, h => by simp [allValid] at h
+
+theorem sortEntries_perm {α : Type} (m : List (Path × α)) : (sortEntries m).Perm m := List.mergeSort_perm _ _
+
+theorem Model.save_eq {m : MState} {ws : Bool} {file : Bytes} (h : Model.save m ws = some file) :
+    ∃ es, sortEntries m = es.map (fun e => (e.1, some e.2)) ∧
+      file = (headerC .model).enc () ++ modelBody es ws := by
+  simp only [Model.save] at h
+  split at h
+  · cases h
+  · rename_i es hes
+    split at h
+    · exact ⟨es, allValid_spec _ _ hes, by simpa [headerC] using h.symm⟩
+    · cases h
+
+/-- What the round trip needs of a model: distinct names, saveable parameters, fewer than 2^32 of them. -/
+def ModelOk (m : MState) : Prop :=
+  m.length < 4294967296 ∧ (m.map Prod.fst).Nodup ∧ ∀ k p, (k, some p) ∈ m → PathOk k ∧ ParamOk p
+
+theorem Model.es_props {m : MState} {es : List (Path × Param)} (hm : ModelOk m)
+    (hes : sortEntries m = es.map (fun e => (e.1, some e.2))) :
+    es.length < 4294967296 ∧ (es.map Prod.fst).Nodup ∧ (∀ e ∈ es, EntryOk e) ∧
+      (∀ e, e ∈ es ↔ (e.1, some e.2) ∈ m) ∧ (∀ k, k ∈ es.map Prod.fst ↔ k ∈ m.map Prod.fst) := by
+  have hperm := sortEntries_perm m
+  rw [hes] at hperm
+  have hlen : es.length = m.length := by simpa using hperm.length_eq
+  have hkeys : (es.map Prod.fst).Perm (m.map Prod.fst) := by
+    have := hperm.map Prod.fst
+    simpa [List.map_map, Function.comp_def] using this
+  have hmem : ∀ e, e ∈ es ↔ (e.1, some e.2) ∈ m := by
+    intro e
+    rw [← hperm.mem_iff]
+    simp only [List.mem_map]
+    constructor
+    · intro h; exact ⟨e, h, rfl⟩
+    · rintro ⟨e', he', heq⟩
+      obtain ⟨h1, h2⟩ := Prod.mk.inj heq
+      have : e' = e := Prod.ext h1 (Option.some.inj h2)
+      exact this ▸ he'
+  refine ⟨hlen ▸ hm.1, hkeys.nodup_iff.mpr hm.2.1, ?_, hmem, fun k => hkeys.mem_iff⟩
+  intro e he
+  exact hm.2.2 e.1 e.2 ((hmem e).mp he)
+
+theorem Model.parseCount_body (n : Nat) (hn : n < 4294967296) (rest : Bytes) :
+    Model.parseCount ((headerC .model).enc () ++ (nat32.enc n ++ rest)) = .ok n rest := by
+  simp only [Model.parseCount]
+  rw [show readHeader .model = (headerC .model).dec from rfl, (lawful_headerC .model).roundtrip () _ trivial]
+  simp only [Res.bind_ok]
+  exact lawful_nat32.roundtrip n rest hn
+
+/-- C13: a saved model loaded into a model with the same parameter names -/
+theorem Model.load_save (m target : MState) (wsS wsL : Bool) (dev : Dev) (file trailing : Bytes)
+    (hm : ModelOk m) (hs : Model.save m wsS = some file)
+    (ht : ∀ k ∈ m.map Prod.fst, hasKey target k = true) :
+    ∃ post, Model.load target (file ++ trailing) wsL dev = (none, post) ∧
+      post.map Prod.fst = target.map Prod.fst ∧
+      (∀ k p, (k, some p) ∈ m → (k, some (loaded p (wsS && wsL) dev)) ∈ post) ∧
+      (∀ x ∈ target, x.1 ∉ m.map Prod.fst → x ∈ post) := by
+  obtain ⟨es, hes, hfile⟩ := Model.save_eq hs
+  obtain ⟨hlen, hnd, hok, hmem, hkeys⟩ := Model.es_props hm hes
+  have hk : ∀ e ∈ es, hasKey target e.1 = true := fun e he =>
+    ht e.1 ((hkeys e.1).mp (List.mem_map_of_mem he))
+  refine ⟨applyEntries (wsS && wsL) dev es target, ?_, applyEntries_keys _ _ _ _, ?_, ?_⟩
+  · rw [Model.load, hfile]
+    simp only [modelBody, List.append_assoc]
+    rw [Model.parseCount_body es.length hlen]
+    exact loadEntries_roundtrip wsS wsL dev es trailing target hok hk
+  · intro k p hkp
+    exact applyEntries_mem _ dev es target hnd hk (k, p) ((hmem (k, p)).mpr hkp)
+  · intro x hx hne
+    exact applyEntries_other _ dev es target x hx (fun h => hne ((hkeys x.1).mp h))
+
+/-- C14: a model file cut anywhere: EOF; the parameters whose records precede the cut are
+replaced by exactly those records, all others are untouched -/
+theorem Model.load_truncated (m target : MState) (wsS wsL : Bool) (dev : Dev) (file pre q : Bytes)
+    (hm : ModelOk m) (hs : Model.save m wsS = some file)
+    (ht : ∀ k ∈ m.map Prod.fst, hasKey target k = true) (he : pre ++ q = file) (hq : q ≠ []) :
+    ∃ (es : List (Path × Param)) (j : Nat), sortEntries m = es.map (fun e => (e.1, some e.2)) ∧ j ≤ es.length ∧
+      Model.load target pre wsL dev = (some .eof, applyEntries (wsS && wsL) dev (es.take j) target) := by
+  obtain ⟨es, hes, hfile⟩ := Model.save_eq hs
+  obtain ⟨hlen, hnd, hok, hmem, hkeys⟩ := Model.es_props hm hes
+  have hk : ∀ e ∈ es, hasKey target e.1 = true := fun e he =>
+    ht e.1 ((hkeys e.1).mp (List.mem_map_of_mem he))
+  refine ⟨es, ?_⟩
+  rw [hfile] at he
+  simp only [modelBody] at he
+  rw [Model.load]
+  rcases prefix_split he hq with ⟨a, ha, hpa⟩ | ⟨c, hpc, hc⟩
+  · refine ⟨0, hes, Nat.zero_le _, ?_⟩
+    have : Model.parseCount pre = .error .eof := by
+      simp only [Model.parseCount]
+      rw [show readHeader .model = (headerC .model).dec from rfl, (lawful_headerC .model).prefixFree () pre a trivial hpa ha]
+      rfl
+    rw [this]; rfl
+  · subst hpc
+    rcases prefix_split hc hq with ⟨a, ha, hpa⟩ | ⟨c2, hpc2, hc2⟩
+    · refine ⟨0, hes, Nat.zero_le _, ?_⟩
+      have : Model.parseCount ((headerC .model).enc () ++ c) = .error .eof := by
+        simp only [Model.parseCount]
+        rw [show readHeader .model = (headerC .model).dec from rfl, (lawful_headerC .model).roundtrip () _ trivial]
+        simp only [Res.bind_ok]
+        exact lawful_nat32.prefixFree es.length c a hlen hpa ha
+      rw [this]; rfl
+    · subst hpc2
+      rw [Model.parseCount_body es.length hlen]
+      obtain ⟨j, hj, hres⟩ := loadEntries_prefix wsS wsL dev es c2 q target hok hk hc2 hq
+      exact ⟨j, hes, Nat.le_of_lt hj, hres⟩
+
+/-- C14, any bytes at all: whatever `Model::load` does, every Parameter afterwards is either
+untouched or exactly a record that `load_inner` parsed completely; names never change -/
+theorem loadEntries_atomic (ws : Bool) (dev : Dev) :
+    ∀ (n : Nat) (bs : Bytes) (st : MState) (r : Option DErr) (post : MState),
+      loadEntries ws dev n bs st = (r, post) →
+      post.map Prod.fst = st.map Prod.fst ∧
+        ∀ x ∈ post, x ∈ st ∨ ∃ bs' p rest, loadInner bs' ws dev = .ok p rest ∧ x.2 = some p
+  | 0, bs, st, r, post, h => by
+    simp only [loadEntries] at h
+    obtain ⟨_, rfl⟩ := Prod.mk.inj h
+    exact ⟨rfl, fun x hx => Or.inl hx⟩
+  | n + 1, bs, st, r, post, h => by
+    simp only [loadEntries] at h
+    split at h
+    · obtain ⟨_, rfl⟩ := Prod.mk.inj h; exact ⟨rfl, fun x hx => Or.inl hx⟩
+    · rename_i key r1 _
+      split at h
+      · obtain ⟨_, rfl⟩ := Prod.mk.inj h; exact ⟨rfl, fun x hx => Or.inl hx⟩
+      · split at h
+        · obtain ⟨_, rfl⟩ := Prod.mk.inj h; exact ⟨rfl, fun x hx => Or.inl hx⟩
+        · rename_i p r2 hp
+          obtain ⟨hkeys, hall⟩ := loadEntries_atomic ws dev n r2 _ r post h
+          refine ⟨by rw [hkeys, setParam_keys], fun x hx => ?_⟩
+          rcases hall x hx with h1 | h1
+          · simp only [setParam, List.mem_map] at h1
+            obtain ⟨e, he, hex⟩ := h1
+            by_cases hk : e.1 = key
+            · right; refine ⟨r1, p, r2, hp, ?_⟩; rw [← hex]; simp [hk]
+            · left; rw [← hex]; simpa [hk] using he
+          · exact Or.inr h1
+
+theorem Model.load_atomic (old : MState) (file : Bytes) (ws : Bool) (dev : Dev) (r : Option DErr) (post : MState)
+    (h : Model.load old file ws dev = (r, post)) :
+    post.map Prod.fst = old.map Prod.fst ∧
+      ∀ x ∈ post, x ∈ old ∨ ∃ bs' p rest, loadInner bs' ws dev = .ok p rest ∧ x.2 = some p := by
+  rw [Model.load] at h
+  cases hc : Model.parseCount file with
+  | error e => rw [hc] at h; simp only [Model.loadFrom] at h; obtain ⟨_, rfl⟩ := Prod.mk.inj h; exact ⟨rfl, fun x hx => Or.inl hx⟩
+  | ok n r1 => rw [hc] at h; exact loadEntries_atomic ws dev n r1 old r post h
+
+/-! ### further rejections -/
+
+theorem Model.load_bad_header (old : MState) (major minor tag : Nat) (rest : Bytes) (ws : Bool) (dev : Dev)
+    (hM : major < 4294967296) (hm : minor < 4294967296) (ht : tag < 4294967296)
+    (hbad : major ≠ versionMajor ∨ minor ≠ versionMinor ∨ tag ≠ DataType.model.tag) :
+    Model.load old (nat32.enc major ++ nat32.enc minor ++ nat32.enc tag ++ rest) ws dev = (some .invalid, old) := by
+  rw [Model.load, Model.parseCount, readHeader_bad .model major minor tag rest hM hm ht hbad]; rfl
+
+/-- a record whose name the model does not have: Error, nothing loaded from it -/
+theorem loadEntries_unknown_name (ws : Bool) (dev : Dev) (n : Nat) (k : Path) (rest : Bytes) (st : MState)
+    (hk : PathOk k) (hno : hasKey st k = false) :
+    loadEntries ws dev (n + 1) (pathC.enc k ++ rest) st = (some .invalid, st) := by
+  simp only [loadEntries]
+  rw [lawful_pathC.roundtrip k rest hk]
+  simp only [hasKey] at hno
+  simp [hno]
+
+/-- payload length and shape disagree: Error -/
+theorem readTensor_length_mismatch (s : Shape) (data rest : Bytes) (hs : ShapeOk s)
+    (hd : data.length < 4294967296) (hne : data.length ≠ s.size * 4) :
+    readTensor (writeShape s ++ bin.enc data ++ rest) = .error .invalid := by
+  simp only [readTensor, List.append_assoc]
+  rw [show writeShape s = shapeC.enc s from rfl, show readShape = shapeC.dec from rfl,
+    lawful_shapeC.roundtrip s _ hs]
+  simp only [Res.bind_ok]
+  rw [lawful_bin.roundtrip data rest hd]
+  simp [hne]
+
+/-- a complete, well-formed record whose value has a minibatch: Error (`assert_shape`) -/
+theorem loadInner_batch (p : Param) (wsS wsL : Bool) (dev : Dev) (rest : Bytes)
+    (hv : TensorOk p.value) (hb : p.value.shape.hasBatch = true) (hn : p.stats.length < 4294967296)
+    (hst : ∀ x ∈ p.stats, StatOk x) :
+    loadInner (saveInner p wsS ++ rest) wsL dev = .error .invalid := by
+  simp only [loadInner, saveInner, List.append_assoc]
+  rw [show writeTensor p.value = tensorC.enc p.value from rfl, show readTensor = tensorC.dec from rfl,
+    lawful_tensorC.roundtrip p.value _ hv]
+  simp only [Res.bind_ok]
+  cases wsS
+  · have h0 : (0 : Nat) < 4294967296 := by omega
+    simp only [Bool.false_eq_true, ↓reduceIte]
+    rw [lawful_nat32.roundtrip _ _ h0]
+    simp [readStats, hb]
+  · simp only [↓reduceIte, List.append_assoc]
+    rw [lawful_nat32.roundtrip _ _ hn]; simp only [Res.bind_ok]
+    rw [readStats_roundtrip wsL p.stats rest [] hst]
+    simp [hb]
+
+/-! ### Optimizer -/
+
+def OptOk (o : Opt) : Prop := o.hyper.length = o.kind.keys.length
+
+theorem Opt.load_atomic (old : Opt) (file : Bytes) (e : DErr) (st : Opt)
+    (h : Opt.load old file = (some e, st)) : st = old := by
+  rw [Opt.load] at h
+  cases hp : Opt.parse file with
+  | ok c r => rw [hp] at h; cases h
+  | error e' => rw [hp] at h; exact (Prod.mk.inj h).2.symm
+
+theorem Opt.load_bad_header (old : Opt) (major minor tag : Nat) (rest : Bytes)
+    (hM : major < 4294967296) (hm : minor < 4294967296) (ht : tag < 4294967296)
+    (hbad : major ≠ versionMajor ∨ minor ≠ versionMinor ∨ tag ≠ DataType.optimizer.tag) :
+    Opt.load old (nat32.enc major ++ nat32.enc minor ++ nat32.enc tag ++ rest) = (some .invalid, old) := by
+  rw [Opt.load, Opt.parse, readHeader_bad .optimizer major minor tag rest hM hm ht hbad]; rfl
+
+theorem lawful_uintMapC : Lawful uintMapC (MapOk (fun s : Bytes => s.length < 4294967296) (fun _ => True)) :=
+  lawful_map lawful_str (lawful_scalar32 _)
+theorem lawful_floatMapC : Lawful floatMapC (MapOk (fun s : Bytes => s.length < 4294967296) (fun _ => True)) :=
+  lawful_map lawful_str (lawful_scalar32 _)
+
+theorem Opt.save_eq (o : Opt) :
+    o.save = (headerC .optimizer).enc () ++ (uintMapC.enc o.uintConfigs ++ floatMapC.enc o.floatConfigs) := by
+  simp [Opt.save, headerC]
+
+theorem Opt.parse_maps (uc fc : List (Bytes × UInt32)) (rest : Bytes)
+    (hu : MapOk (fun s : Bytes => s.length < 4294967296) (fun _ => True) uc)
+    (hf : MapOk (fun s : Bytes => s.length < 4294967296) (fun _ => True) fc) :
+    Opt.parse ((headerC .optimizer).enc () ++ (uintMapC.enc uc ++ floatMapC.enc fc) ++ rest) = .ok (uc, fc) rest := by
+  simp only [Opt.parse, List.append_assoc]
+  rw [show readHeader .optimizer = (headerC .optimizer).dec from rfl,
+    (lawful_headerC .optimizer).roundtrip () _ trivial]
+  simp only [Res.bind_ok]
+  rw [lawful_uintMapC.roundtrip uc _ hu]; simp only [Res.bind_ok]
+  rw [lawful_floatMapC.roundtrip fc _ hf]; rfl
+
+theorem Opt.parse_prefix (uc fc : List (Bytes × UInt32)) (pre q : Bytes)
+    (hu : MapOk (fun s : Bytes => s.length < 4294967296) (fun _ => True) uc)
+    (hf : MapOk (fun s : Bytes => s.length < 4294967296) (fun _ => True) fc)
+    (he : pre ++ q = (headerC .optimizer).enc () ++ (uintMapC.enc uc ++ floatMapC.enc fc)) (hq : q ≠ []) :
+    Opt.parse pre = .error .eof := by
+  simp only [Opt.parse]
+  rw [show readHeader .optimizer = (headerC .optimizer).dec from rfl]
+  refine seq_prefix (lawful_headerC .optimizer) (v := ()) trivial he hq _ (fun c1 h1 => ?_)
+  refine seq_prefix lawful_uintMapC (v := uc) hu h1 hq _ (fun c2 h2 => ?_)
+  have h2' : c2 ++ q = floatMapC.enc fc ++ [] := by simpa using h2
+  exact seq_prefix lawful_floatMapC (v := fc) hf h2' hq _ (fun c3 h3 => by simp at h3; exact absurd h3.2 hq)
+
+/-! ### Optimizer: get_configs / set_configs -/
+
+abbrev KeyOk : Bytes → Prop := fun s => s.length < 4294967296
+
+theorem len1 {α : Type} {l : List α} (h : l.length = 1) : ∃ a, l = [a] := by
+  rcases l with _ | ⟨a, _ | ⟨b, t⟩⟩ <;> simp at h ⊢
+theorem len2 {α : Type} {l : List α} (h : l.length = 2) : ∃ a b, l = [a, b] := by
+  rcases l with _ | ⟨a, _ | ⟨b, _ | ⟨c, t⟩⟩⟩ <;> simp at h ⊢
+theorem len3 {α : Type} {l : List α} (h : l.length = 3) : ∃ a b c, l = [a, b, c] := by
+  rcases l with _ | ⟨a, _ | ⟨b, _ | ⟨c, _ | ⟨d, t⟩⟩⟩⟩ <;> simp at h ⊢
+theorem len4 {α : Type} {l : List α} (h : l.length = 4) : ∃ a b c d, l = [a, b, c, d] := by
+  rcases l with _ | ⟨a, _ | ⟨b, _ | ⟨c, _ | ⟨d, _ | ⟨e, t⟩⟩⟩⟩⟩ <;> simp at h ⊢
+
+theorem uintConfigs_ok (o : Opt) : MapOk KeyOk (fun _ => True) o.uintConfigs := by
+  refine ⟨by simp [Opt.uintConfigs], ?_, by simp [Opt.uintConfigs]⟩
+  intro x hx
+  simp only [Opt.uintConfigs, List.mem_singleton] at hx
+  subst hx
+  exact ⟨by simp [KeyOk, kOptimizer_epoch], trivial⟩
+
+section
+attribute [local simp] Opt.floatConfigs Opt.uintConfigs OptKind.keys KeyOk kOptimizer_epoch kOptimizer_lr_scale
+  kOptimizer_l2_strength kOptimizer_clip_threshold kSGD_eta kMomentumSGD_eta kMomentumSGD_momentum kAdaGrad_eta
+  kAdaGrad_eps kRMSProp_eta kRMSProp_alpha kRMSProp_eps kAdaDelta_rho kAdaDelta_eps kAdam_alpha kAdam_beta1
+  kAdam_beta2 kAdam_eps
+
+theorem floatConfigs_ok (o : Opt) (h : OptOk o) : MapOk KeyOk (fun _ => True) o.floatConfigs := by
+  obtain ⟨kind, epoch, lr, l2, clip, hyper⟩ := o
+  simp only [OptOk] at h
+  cases kind <;> simp only [OptKind.keys, List.length_cons, List.length_nil] at h
+  · obtain ⟨a, rfl⟩ := len1 h
+    exact ⟨by simp, by simp, by simp⟩
+  · obtain ⟨a, b, rfl⟩ := len2 h
+    exact ⟨by simp, by simp, by simp⟩
+  · obtain ⟨a, b, rfl⟩ := len2 h
+    exact ⟨by simp, by simp, by simp⟩
+  · obtain ⟨a, b, c, rfl⟩ := len3 h
+    exact ⟨by simp, by simp, by simp⟩
+  · obtain ⟨a, b, rfl⟩ := len2 h
+    exact ⟨by simp, by simp, by simp⟩
+  · obtain ⟨a, b, c, d, rfl⟩ := len4 h
+    exact ⟨by simp, by simp, by simp⟩
+
+/-- `set_configs(get_configs(o))` on any optimizer of the same algorithm gives `o`'s settings -/
+theorem setConfigs_getConfigs (old o : Opt) (hk : old.kind = o.kind) (ho : OptOk o) (hold : OptOk old) :
+    old.setConfigs o.uintConfigs o.floatConfigs = o := by
+  obtain ⟨kind, epoch, lr, l2, clip, hyper⟩ := o
+  obtain ⟨kind', epoch', lr', l2', clip', hyper'⟩ := old
+  simp only at hk
+  subst hk
+  simp only [OptOk] at ho hold
+  cases kind' <;> simp only [OptKind.keys, List.length_cons, List.length_nil] at ho hold
+  · obtain ⟨a, rfl⟩ := len1 ho
+    obtain ⟨a', rfl⟩ := len1 hold
+    simp [Opt.setConfigs, setConfig, setHyper, List.lookup]
+  · obtain ⟨a, b, rfl⟩ := len2 ho
+    obtain ⟨a', b', rfl⟩ := len2 hold
+    simp [Opt.setConfigs, setConfig, setHyper, List.lookup]
+  · obtain ⟨a, b, rfl⟩ := len2 ho
+    obtain ⟨a', b', rfl⟩ := len2 hold
+    simp [Opt.setConfigs, setConfig, setHyper, List.lookup]
+  · obtain ⟨a, b, c, rfl⟩ := len3 ho
+    obtain ⟨a', b', c', rfl⟩ := len3 hold
+    simp [Opt.setConfigs, setConfig, setHyper, List.lookup]
+  · obtain ⟨a, b, rfl⟩ := len2 ho
+    obtain ⟨a', b', rfl⟩ := len2 hold
+    simp [Opt.setConfigs, setConfig, setHyper, List.lookup]
+  · obtain ⟨a, b, c, d, rfl⟩ := len4 ho
+    obtain ⟨a', b', c', d', rfl⟩ := len4 hold
+    simp [Opt.setConfigs, setConfig, setHyper, List.lookup]
+end
+
+/-- C13: optimizer round trip -/
+theorem Opt.load_save (old o : Opt) (trailing : Bytes) (hk : old.kind = o.kind) (ho : OptOk o) (hold : OptOk old) :
+    Opt.load old (o.save ++ trailing) = (none, o) := by
+  rw [Opt.load, Opt.save_eq, Opt.parse_maps _ _ trailing (uintConfigs_ok o) (floatConfigs_ok o ho)]
+  simp only [commitOpt]
+  rw [setConfigs_getConfigs old o hk ho hold]
+
+/-- C14: a truncated optimizer file is rejected and the optimizer keeps its settings -/
+theorem Opt.load_truncated (old o : Opt) (pre q : Bytes) (ho : OptOk o) (he : pre ++ q = o.save) (hq : q ≠ []) :
+    Opt.load old pre = (some .eof, old) := by
+  rw [Opt.save_eq] at he
+  rw [Opt.load, Opt.parse_prefix _ _ pre q (uintConfigs_ok o) (floatConfigs_ok o ho) he hq]; rfl
+
+/-! ### every Shape the constructors can produce is `ShapeOk` -/
+
+theorem trim_cons (d : Nat) (ds : List Nat) :
+    trim (d :: ds) = (match trim ds with | [] => if d = 1 then [] else [d] | t :: ts => d :: t :: ts) := rfl
+
+theorem trim_length_le : ∀ (ds : List Nat), (trim ds).length ≤ ds.length
+  | [] => by simp [trim]
+  | d :: ds => by
+    have ih := trim_length_le ds
+    rw [trim_cons]
+    split
+    · split <;> simp
+    · rename_i t ts heq; rw [heq] at ih; simp at ih ⊢; omega
+
+theorem trim_mem : ∀ (ds : List Nat) (x : Nat), x ∈ trim ds → x ∈ ds
+  | [], x, h => by simp [trim] at h
+  | d :: ds, x, h => by
+    have ih := trim_mem ds x
+    rw [trim_cons] at h
+    split at h
+    · split at h
+      · cases h
+      · simp at h; simp [h]
+    · rename_i t ts heq
+      rw [heq] at ih
+      rcases List.mem_cons.mp h with rfl | h'
+      · simp
+      · exact List.mem_cons_of_mem _ (ih h')
+
+theorem trim_trim : ∀ (ds : List Nat), trim (trim ds) = trim ds
+  | [] => rfl
+  | d :: ds => by
+    have ih := trim_trim ds
+    rw [trim_cons]
+    split
+    · split
+      · rfl
+      · rename_i hd; simp [trim, hd]
+    · rename_i t ts heq
+      rw [heq] at ih
+      rw [trim_cons, ih]
+
+theorem prodChk_trim : ∀ (ds : List Nat) (v : Nat), v ≤ MAXU → Shape.prodChk (trim ds) v = Shape.prodChk ds v
+  | [], v, _ => rfl
+  | d :: ds, v, hv => by
+    rw [trim_cons]
+    rw [show Shape.prodChk (d :: ds) v = if v * d > MAXU then none else Shape.prodChk ds (v * d) from rfl]
+    split
+    · rename_i heq
+      split
+      · rename_i hd
+        subst hd
+        have ih := prodChk_trim ds (v * 1) (by omega)
+        rw [heq] at ih
+        have : ¬ v * 1 > MAXU := by omega
+        simp only [Shape.prodChk, this, ↓reduceIte, ← ih]; simp
+      · by_cases hvd : v * d > MAXU
+        · simp [Shape.prodChk, hvd]
+        · have ih := prodChk_trim ds (v * d) (by omega)
+          rw [heq] at ih
+          simp only [Shape.prodChk, hvd, ↓reduceIte, ← ih]
+    · rename_i t ts heq
+      rw [show Shape.prodChk (d :: t :: ts) v = if v * d > MAXU then none else Shape.prodChk (t :: ts) (v * d) from rfl]
+      by_cases hvd : v * d > MAXU
+      · simp [hvd]
+      · have ih := prodChk_trim ds (v * d) (by omega)
+        rw [heq] at ih
+        rw [if_neg hvd, if_neg hvd, ih]
+
+/-- `Shape(dims, batch)` with 32-bit arguments yields a shape in the form `write_shape`/`read_shape` preserve -/
+theorem shapeOk_of_new (dims : List Nat) (batch : Nat) (s : Shape)
+    (hd : ∀ d ∈ dims, d < 4294967296) (hb : batch < 4294967296) (h : Shape.new dims batch = .ok s) : ShapeOk s := by
+  simp only [Shape.new] at h
+  split at h
+  · cases h
+  · rename_i hlen
+    split at h
+    · cases h
+    · rename_i vol hvol
+      split at h
+      · cases h
+      · rename_i hcond
+        have hs : s = ⟨trim dims, batch, vol⟩ := by
+          simp only [pure, Except.pure] at h
+          exact (Except.ok.inj h).symm
+        subst hs
+        have hl := trim_length_le dims
+        refine ⟨by simp only; omega, fun d hdm => hd d (trim_mem dims d hdm), hb, ?_⟩
+        simp only [Shape.new]
+        have h1 : ¬ (trim dims).length > 8 := by omega
+        have h2 : Shape.prodChk (trim dims) 1 = some vol := by rw [prodChk_trim dims 1 (by simp [MAXU])]; exact hvol
+        simp only [h1, ↓reduceIte, h2, hcond, trim_trim]
+        rfl
+
 end Primitiv.Files
